@@ -99,3 +99,16 @@ Proof. destruct d; simpl; [reflexivity | apply flip_flip]. Qed.
 
 (* result of a translated method body: the pair state afterwards and whether an exception escaped *)
 Definition outcome := (pstate * bool)%type.
+
+(* the pair state seen by a call whose arguments are (a, b): exchanged iff sw *)
+Definition vw (s : pstate) (sw : bool) : pstate := if sw then flip s else s.
+
+(* checked shape of the add_edge / add_edges_from overrides of a class (read by the translator):
+   which guard add_edge calls on (self, u, v, edge_type) BEFORE delegating to the layers, and how a bulk add validates:
+   BulkEvolving   : every element goes through guard-then-insert on a scratch copy (= against the graph plus the
+                    elements before it); the graph itself is touched only after the whole batch passed
+   BulkStartState : every element is checked against the graph as it was before the call, then all are inserted
+   BulkUnguarded  : no check *)
+Inductive guardsel := GPag | GCpdag | GNone.
+Inductive bulkshape := BulkEvolving | BulkStartState | BulkUnguarded.
+Record wrapper := { w_guard : guardsel; w_bulk : bulkshape }.
